@@ -286,13 +286,16 @@ func runC14(c *Ctx) {
 	c.floor("C14.R3", 3)
 	gl := newIG(m, locate, nil)
 	nilRets := 0
-	for _, rn := range gl.Returns() {
+	// (by return case: a return of merged variables is one case per way of
+	// reaching it, with the values and the tests of that way)
+	for _, rc := range gl.ReturnCases() {
+		rn := rc.Ret
 		ret := gl.Ins[rn].(*ssa.Return)
-		if ret.Block() == locate.Recover {
+		if ret.Block() == locate.Recover || len(rc.Vals) < 3 {
 			continue
 		}
-		vals := make([]ssa.Value, len(ret.Results))
-		for i, r := range ret.Results {
+		vals := make([]ssa.Value, len(rc.Vals))
+		for i, r := range rc.Vals {
 			vals[i] = spilledResult(gl, rn, r)
 		}
 		if vals[2] == nil || !isNilConst(vals[2]) {
@@ -314,7 +317,7 @@ func runC14(c *Ctx) {
 		if pt, ok := base.Type().Underlying().(*types.Pointer); ok {
 			structT = pt.Elem()
 		}
-		facts := gl.FactsAt(rn)
+		facts := gl.CaseFacts(rc)
 		want := packedSize(structT)
 		gotLen := int64(-1)
 		okValid := hasFact(facts, func(f Fact) bool {
